@@ -1463,7 +1463,7 @@ def run(ctx):
         ctx.note("phase times: proofs+corpus done at %.0fs" % ctx.elapsed())
         # ---- generated schedules
         n = ctx.n(quick=360, thorough=6000)
-        t_budget = ctx.n(quick=90, thorough=1200)
+        t_budget = int(os.environ.get("C15_TBUDGET", ctx.n(quick=90, thorough=1200)))   # development aid: reproduce a run of a faster machine
         t0 = time.time()
         for k in range(n):
             if time.time() - t0 > t_budget:
@@ -1502,15 +1502,27 @@ def run(ctx):
         ns = ctx.n(quick=30, thorough=2200)
         ts = time.time()
         for k in range(ns):
-            if time.time() - ts > ctx.n(quick=20, thorough=1200):
+            if time.time() - ts > int(os.environ.get("C15_TBUDGET", ctx.n(quick=20, thorough=1200))):
                 ctx.note("stress stopped after %d runs (time budget)" % k)
                 break
             seed = rng.getrandbits(40)
             v = stress_run(ctx, seed)
             ctx.evaluated()
             ctx.count("stress:runs")
-            for sig, what in v:
-                ctx.violation(sig, what, {"stress_seed": seed, "what": what})
+            if v:
+                # free-running processes: what is reported must be replayable. The same stress seed is run again (up to
+                # three times); only a signature that shows again is a violation with a replay, anything else is written
+                # into the evidence as an unreproduced observation (the scripted schedules above are the deterministic part)
+                again = set()
+                for _ in range(3):
+                    again |= {s_ for s_, _w in stress_run(ctx, seed)}
+                    ctx.count("stress:confirmation-runs")
+                for sig, what in v:
+                    if sig in again:
+                        ctx.violation(sig, what, {"stress_seed": seed, "what": what})
+                    else:
+                        ctx.count("stress:unreproduced-observation:" + sig)
+                        ctx.note("stress seed %d: %s (%s) did not show again in 3 more runs of the same seed" % (seed, sig, what[:200]))
     finally:
         pt.remove()
 
